@@ -247,10 +247,13 @@ def run_rc_unit(res, unit, findings, tier, seed, tmp):
 
 
 def confirm_failure(res, findings, key, path, msg, unit=None):
-    r = replay_file(path, 3, timeout_ms=(unit or {}).get("timeout_ms"), prop=res.prop)
+    # real-thread harnesses (schedules sampled, oracle schedule independent) replay more often:
+    # a race that shows in 1 of 10 runs is still a violation; one that never shows again is not reported
+    runs = (unit or {}).get("confirm_runs", 3)
+    r = replay_file(path, runs, timeout_ms=(unit or {}).get("timeout_ms"), prop=res.prop)
     need = (unit or {}).get("confirm", 2)
     if r["fails"] < need:
-        res.notes.append("FLAKY: %s failed in search but reproduced %d/3 (%s)" % (key, r["fails"], path))
+        res.notes.append("FLAKY: %s failed in search but reproduced %d/%d (%s)" % (key, r["fails"], runs, path))
         log("flaky, not reported:", key, r)
         return
     for f in findings:
